@@ -644,8 +644,8 @@ func main() {
 			if strings.HasSuffix(k, "_nocond") {
 				in.Global = r.Bool() // with AllowGlobalUpdate the statement is sent
 			}
-			if strings.HasPrefix(k, "begin_") {
-				in.FailBegin = false
+			if strings.HasPrefix(k, "begin_") || strings.HasPrefix(k, "batch") {
+				in.FailBegin = false // (for batches the model takes the number of batches from the statements sent)
 			}
 			if k == "exec_bad" {
 				in.Prep = false
